@@ -883,11 +883,6 @@ theorem check_runFrom : ∀ (ops : List Op) (s : State) (led : Ledger), Rel s le
     exact ih _ _ (rel_step h op)
 
 
-/-- the process state after a history -/
-def stateAfter (s : State) : List Op → State
-  | [] => s
-  | op :: rest => stateAfter (step s op).1 rest
-
 /-- the judge's ledger after the model's trace of a history -/
 def ledgerAfter (s : State) (led : Ledger) : List Op → Ledger
   | [] => led
@@ -1378,6 +1373,84 @@ theorem wgCovers_after : ∀ (ops : List Op) (s : State), WgCovers s → WgCover
   | cons op rest ih => intro s h; exact ih _ (wgCovers_step h op)
 
 theorem wgCovers_init : WgCovers State.init := fun _ => by simp [State.init, liveG]
+
+
+theorem takeWhile_append_all {α : Type} (p : α → Bool) : ∀ (A B : List α), (∀ a ∈ A, p a = true) → (∀ b ∈ B, p b = false) →
+    (A ++ B).takeWhile p = A ∧ (A ++ B).dropWhile p = B := by
+  intro A
+  induction A with
+  | nil =>
+    intro B _ hB
+    cases B with
+    | nil => simp
+    | cons b rest => simp [List.takeWhile, List.dropWhile, hB b List.mem_cons_self]
+  | cons a rest ih =>
+    intro B hA hB
+    have ha := hA a List.mem_cons_self
+    obtain ⟨i1, i2⟩ := ih B (fun x hx => hA x (List.mem_cons_of_mem _ hx)) hB
+    simp [List.takeWhile, List.dropWhile, ha, i1, i2]
+
+theorem shutdownEvents_isCb {insts : List Inst} : ∀ e ∈ shutdownEvents insts, isCb e = true := by
+  intro e he
+  simp only [shutdownEvents, List.mem_flatMap] at he
+  obtain ⟨i, _, h⟩ := he
+  rcases List.mem_append.mp h with h | h <;> rcases mem_cbs.mp h with rfl | rfl <;> rfl
+
+theorem stopEvents_isStop {insts : List Inst} : ∀ e ∈ insts.flatMap stopEvents, isStop e = true ∧ isCb e = false := by
+  intro e he
+  obtain ⟨i, _, h⟩ := List.mem_flatMap.mp he
+  obtain ⟨j, _, _, rfl⟩ := stopLoop_mem h
+  exact ⟨rfl, rfl⟩
+
+theorem deciding_ne_hup (sigs : List Sig) : deciding sigs ≠ some .hup := by
+  induction sigs with
+  | nil => simp [deciding]
+  | cons s rest ih => cases s <;> simp [deciding, ih]
+
+/-- what the signal handlers do satisfies the law of the signal path -/
+theorem sigRun_law {s : State} {led : Ledger} (h : Rel s led) (ho : s.once = false) (sigs : List Sig) :
+    signalPathLaw s.insts sigs (sigRun s sigs).1 (sigRun s sigs).2.isSome = none := by
+  have hsig : (step s (.signal 1)).2.events = shutdownEvents s.insts := by simp [step, ho]
+  have hst : (step (step s (.signal 1)).1 .stopAll).2.events = s.insts.flatMap stopEvents := by simp [step, ho]
+  unfold signalPathLaw sigRun
+  cases hd : deciding sigs with
+  | none => simp
+  | some sg =>
+    cases sg with
+    | hup => exact absurd hd (deciding_ne_hup sigs)
+    | quit => simp
+    | int => simp [hsig, signalOk_step h.sorted]
+    | term =>
+      obtain ⟨t1, t2⟩ := takeWhile_append_all isCb (shutdownEvents s.insts) (s.insts.flatMap stopEvents)
+        shutdownEvents_isCb (fun b hb => (stopEvents_isStop b hb).2)
+      simp only [hsig, hst, Option.isSome_some, Bool.not_true, Bool.false_eq_true, if_false, t1, t2,
+        signalOk_step h.sorted, stopAllOk_step]
+      have : (s.insts.flatMap stopEvents).all isStop = true := by
+        rw [List.all_eq_true]; exact fun e he => (stopEvents_isStop e he).1
+      simp [this]
+
+
+theorem once_false_step {s : State} (h : s.once = false) {op : Op} (hop : ∀ n, op ≠ .signal n) : (step s op).1.once = false := by
+  cases op with
+  | start c => by_cases hl : (load s.next c false []).2 = true <;> simp [step, hl, h]
+  | restart c =>
+    cases hi : s.insts with
+    | nil => simp [step, hi, h]
+    | cons o rest =>
+      cases hr : o.cfg.restartErr
+      · by_cases hl : (load s.next c true (restartFds o)).2 = true <;> simp [step, hi, runCbs, hr, hl, h]
+      · simp [step, hi, runCbs, hr, h]
+  | stopAll => simp [step, h]
+  | signal n => exact absurd rfl (hop n)
+
+theorem once_false_after : ∀ (ops : List Op) (s : State), s.once = false → (∀ op ∈ ops, ∀ n, op ≠ .signal n) →
+    (stateAfter s ops).once = false := by
+  intro ops
+  induction ops with
+  | nil => intro s h _; exact h
+  | cons op rest ih =>
+    intro s h hall
+    exact ih _ (once_false_step h (hall op List.mem_cons_self)) (fun o ho => hall o (List.mem_cons_of_mem _ ho))
 
 
 end Casket.Lifecycle
